@@ -80,6 +80,15 @@ def _f(v):
     return x if x == x else ("not-a-number", "nan")
 
 
+def unreadable(rows):
+    """description of the first field of a logical table that holds a marker for an unreadable value, or None"""
+    for k, r in enumerate(rows):
+        for f, v in r.items():
+            if isinstance(v, tuple) and v and v[0] in ("not-an-integer", "not-a-number", "unreadable"):
+                return f"row {k}: field {f} is {v[1]!r}"
+    return None
+
+
 def logical(df):
     """neutral accessor: list of logical atoms from a parser_v2 DataFrame"""
     fmt = df.attrs.get("format")
@@ -103,7 +112,8 @@ def logical(df):
                 "x": _f(r.get("Cartn_x")), "y": _f(r.get("Cartn_y")), "z": _f(r.get("Cartn_z")),
                 "occ": _f(r.get("occupancy")), "bfac": _f(r.get("B_iso_or_equiv")),
                 "element": _s(r.get("type_symbol")), "charge": _charge(r.get("pdbx_formal_charge")),
-                "model": _i(r.get("pdbx_PDB_model_num")),
+                # a table without the model item holds a single model; the writers call it model 1
+                "model": _i(r.get("pdbx_PDB_model_num")) if "pdbx_PDB_model_num" in df.columns else 1,
             })
         else:
             raise HarnessError(f"unknown frame format {fmt!r}")
@@ -239,14 +249,21 @@ def oracle(case):
     if dia:
         if dia.get("label_alias") and {"auth_atom_id", "auth_comp_id"} & set(dia.get("drop", [])):
             dia = dict(dia, label_alias=False)  # the names live in the label items then: they must stay as given
+        # optional items may be left out where their absence has one reading: no insertion code / alternate location
+        # anywhere, a single model numbered 1; without the element / charge items the fields read as empty / 0
+        drop = [d for d in dia.get("drop", []) if not ((d == "pdbx_PDB_ins_code" and any(a["icode"] for a in atoms))
+                                                       or (d == "label_alt_id" and any(a["altloc"] for a in atoms))
+                                                       or (d == "pdbx_PDB_model_num" and (not single or atoms[0]["model"] != 1)))]
+        dia = dict(dia, drop=drop)
+        want_d = [dict(a, element="" if "type_symbol" in drop else a["element"], charge=0 if "pdbx_formal_charge" in drop else a["charge"]) for a in atoms]
         dtext = atomtab.emit_cif(atoms, case.get("null", "?"), dialect=dia)
         df_d = parse_cif_atoms(dtext)
-        out += diff_tables("read-cif-dialect", atoms, logical(df_d), single)
+        out += diff_tables("read-cif-dialect", want_d, logical(df_d), single)
         if not out:
-            out += diff_tables("cif-dialect->cif", atoms, logical(parse_cif_atoms(write_cif(df_d))), single)
+            out += diff_tables("cif-dialect->cif", want_d, logical(parse_cif_atoms(write_cif(df_d))), single)
             t4 = write_pdb(df_d)
-            out += check_pdb_layout("cif-dialect->pdb", t4, atoms)
-            out += diff_tables("cif-dialect->pdb", atoms, logical(parse_pdb_atoms(t4)), single)
+            out += check_pdb_layout("cif-dialect->pdb", t4, want_d)
+            out += diff_tables("cif-dialect->pdb", want_d, logical(parse_pdb_atoms(t4)), single)
     # file-object and path outputs agree with the returned string
     buf = io.StringIO()
     write_pdb(df_p, buf)
@@ -393,7 +410,8 @@ def st_cases():
     MODEL_NUMBERS = _model_numbers()
 
     dialect = st.one_of(st.none(), st.fixed_dictionaries({
-        "drop": st.lists(st.sampled_from(["label_entity_id", "auth_atom_id", "auth_comp_id"]), max_size=3, unique=True),
+        "drop": st.lists(st.sampled_from(["label_entity_id", "auth_atom_id", "auth_comp_id", "pdbx_PDB_ins_code", "label_alt_id", "pdbx_PDB_model_num",
+                                          "type_symbol", "pdbx_formal_charge"]), max_size=4, unique=True),
         "order": st.one_of(st.none(), st.integers(0, 10 ** 6)), "label_alias": st.booleans()}))
     return st.fixed_dictionaries({"atoms": atomtab.st_tables(max_residues=4, max_atoms=6), "null": st.sampled_from(["?", "."]), "dialect": dialect,
                                   "model_numbers": MODEL_NUMBERS})
